@@ -414,7 +414,7 @@ func c01Handoff(p *Prog, r *Report) {
 		fatalf("anchor: ClientConn.Receive/Send not found")
 	}
 	prepReq := p.Named("proxycore", "prepareRequest")
-	origF := p.Field("proxycore", "prepareRequest", "origRequest")
+	origF := p.FieldRole("proxycore", "prepareRequest", "origRequest", isRequestIface)
 
 	s := newSim(p)
 	s.Inline = func(fn *ssa.Function) bool {
@@ -663,12 +663,11 @@ func c01Closing(p *Prog, r *Report, cc *types.Named) {
 				return
 			}
 			ranged++
-			mc, ok := c.Common().Args[1].(*ssa.MakeClosure)
-			if !ok {
-				probs = append(probs, p.Pos(c.Pos())+": Range callback is not a closure literal")
+			cb := rangeCallbackFn(p, c)
+			if cb == nil {
+				probs = append(probs, p.Pos(c.Pos())+": the Range callback could not be resolved")
 				return
 			}
-			cb := mc.Fn.(*ssa.Function)
 			s := newSim(p)
 			s.Effect = func(call ssa.CallInstruction, callee *ssa.Function) []string {
 				cm := call.Common()
